@@ -396,6 +396,54 @@ if r4 != "x*item":
 if r5 != "x*item":
     fail("core:Wtp.expand#post_template_fn-result-used-verbatim", f"gives {r5!r}", {"page": "x{{a}}"})
 
+# ---- the loop detector decides whether a selected call is expanded or replaced by an error element: it reports a loop
+# exactly when the frame stack ends in k >= 2 repetitions of a block whose first frame is not an argument-value frame
+# (declarative restatement, all stacks up to the length bound over a small frame alphabet), and a call nested in its own
+# argument -- directly, through a parser function or through a link -- is not a loop
+import itertools as _it
+from wikitextprocessor.core import detect_expand_template_loop as _detect
+
+
+def _loop_spec(st):
+    n = len(st)
+    if n < 2 or st[-1] not in st[:-1]:
+        return False
+    for p_ in range(1, n // 2 + 1):
+        for i in range(0, n - p_):
+            if (n - i) % p_ == 0 and not st[i].startswith("ARGVAL-") and all(st[j] == st[j + p_] for j in range(i, n - p_)):
+                return True
+    return False
+
+
+FRAMES = ["Template:w", "Template:v", "ARGVAL-1", "ARGVAL-k", "#if"]
+n_loop = 0
+for n_ in range(0, (7 if tier == "quick" else 9)):
+    for st in _it.product(FRAMES, repeat=n_):
+        n_loop += 1
+        try:
+            g_ = _detect(list(st))
+        except Exception as ex_:
+            g_ = f"<<{type(ex_).__name__}>>"
+        if g_ is not _loop_spec(st):
+            fail("core:detect_expand_template_loop#equals-declarative-definition",
+                 f"detect_expand_template_loop({list(st)}) = {g_!r}, definition {_loop_spec(st)}", {"stack": list(st)}, "loop-detector")
+            break
+evaluations += n_loop
+ctx.add_page("Template:wrap", 10, "({{{1}}})")
+for txt, want in (("{{wrap|{{wrap|{{wrap|x}}}}}}", "(((x)))"),
+                  ("{{wrap|{{#if:1|{{wrap|{{#if:1|{{wrap|x}}}}}}}}}}", "(((x)))"),
+                  ("{{wrap|[[t|{{wrap|[[t|{{wrap|x}}]]}}]]}}", "([[t|([[t|(x)]])]])"),
+                  ("{{wrap|{{#if:1|{{wrap|{{#if:1|{{wrap|{{#if:1|{{wrap|y}}}}}}}}}}}}}}", "((((y))))")):
+    ncalls = []
+    ctx.start_page("Tt")
+    with quiet_stdout():
+        out = ctx.expand(txt, template_fn=lambda n, ht: ncalls.append(n))
+    evaluations += 1
+    if out != want or len(ncalls) != txt.count("{{wrap"):
+        fail("core:Wtp.expand#equals-reference-selective-expansion",
+             f"{txt!r} -> {out!r} want {want!r}; template_fn called {len(ncalls)} times for {txt.count('{{wrap')} calls",
+             {"page": txt}, "nested-in-own-argument")
+
 emit({"skipped_outside_envelope": skipped, "evaluations": evaluations, "distinct_nontrivial": len(distinct),
       "rule": "distinct (page, templates_to_expand, templates_to_not_expand, pre_expand, expand_parserfns, hook mode) tuples",
       "failures": list(failures.values()), "samples": samples,
